@@ -38,14 +38,21 @@ _TR = bytes(((b % 255) + 1) for b in range(256))
 def content(key, size, gen=0, seed=None, mode="rand"):
     """Deterministic file content.  mode "rand": bytes 1..255, unique per key (default);
     "zeros": all zero bytes; "repeat": one 16 KiB block repeated; "sparse": random with long runs of
-    zero bytes; "same": random but identical for every key (duplicate files)."""
+    zero bytes; "same": random but identical for every key (duplicate files); "const": one non-zero byte
+    value; "period": one 64-byte record repeated (both identical for every key, so that the byte one piece
+    length earlier is the same byte even across file boundaries)."""
     if size <= 0:
         return b""
     s = SEED if seed is None else seed
     if mode == "zeros":
         return bytes(size)
+    if mode == "const":            # one non-zero byte value throughout (erased flash, filler), the same for every key
+        return bytes([0xA5 + s % 7]) * size
     if mode == "same":
         key = "same-content"
+    if mode == "period":           # identical 64-byte records, the same for every key: any period dividing the piece length
+        rec = hashlib.shake_256(("%d/period" % s).encode()).digest(64).translate(_TR)
+        return (rec * (size // 64 + 1))[:size]
     h = hashlib.shake_256(("%d/%s/%d" % (s, key, gen)).encode())
     if mode == "repeat":
         blk = h.digest(BLOCK).translate(_TR)
